@@ -12,16 +12,24 @@
  * over CAP <= 8 entries (CNT), so the count clause is proved for every descriptor of up to CAP rows and columns. */
 #include "basis_spec_c.h"
 #include "SPxBasis_SPxStatus.inc"
-int* gp_rs; int* gp_cs; int* gp_bid; const void** gp_mat; int* gp_perm;
-int g_js, g_gone, g_b, v_b_info, v_b_idx, v_last_info, v_last_idx, v_i, v_last, g_exp_r, g_exp_c, g_DU, g_n, g_dim;
+int* gp_rs; int* gp_cs; int* gp_bid; const void** gp_mat;
+int* gp_status; _Bool* gp_setup; _Bool* gp_fact; int* gp_loadcalls;
+int g_js, g_gone, g_b, v_b, v_blast, v_i, v_last, g_exp_r, g_exp_c, g_n, g_dim;
+int g_x, g_p, g_newn, v_x, g_xdual, g_bstatus, g_setup, g_fact, g_NP, g_old, g_key, g_rep;
+int g_PL, g_PU, g_PX, g_PF, g_okL, g_okU, g_okX, g_okF, g_giveup;
 int o_status, o_setup, o_fact, o_rsize, o_csize, o_bsize, o_msize, o_loadcalls;
 static void havoc_ghosts(void)
 {
    g_nr = nondet_int(); g_nc = nondet_int(); g_r = nondet_int(); g_c = nondet_int(); v_r = nondet_int(); v_c = nondet_int();
-   g_js = nondet_int(); g_gone = nondet_int(); g_b = nondet_int(); v_b_info = nondet_int(); v_b_idx = nondet_int();
-   v_last_info = nondet_int(); v_last_idx = nondet_int(); v_i = nondet_int(); v_last = nondet_int(); g_exp_r = nondet_int(); g_exp_c = nondet_int();
+   g_js = nondet_int(); g_gone = nondet_int(); g_b = nondet_int(); v_b = nondet_int(); v_blast = nondet_int();
+   v_i = nondet_int(); v_last = nondet_int(); g_exp_r = nondet_int(); g_exp_c = nondet_int();
    g_n = nondet_int(); g_dim = nondet_int();
-   g_DU = D_UNDEFINED; g_throw_allowed = 0;
+   g_x = nondet_int(); g_p = nondet_int(); g_newn = nondet_int(); v_x = nondet_int(); g_xdual = nondet_int(); g_bstatus = nondet_int();
+   g_giveup = nondet_int(); g_setup = nondet_int(); g_fact = nondet_int(); g_old = nondet_int(); g_key = nondet_int(); g_rep = nondet_int();
+   g_okL = nondet_int(); g_okU = nondet_int(); g_okX = nondet_int(); g_okF = nondet_int(); v_exp_r = nondet_int(); v_exp_c = nondet_int();
+   /* enumerators cannot be named in loop invariants: ghost copies */
+   g_NP = NO_PROBLEM; g_PL = P_ON_LOWER; g_PU = P_ON_UPPER; g_PX = P_FIXED; g_PF = P_FREE;
+   g_throw_allowed = 0;
    o_status = nondet_int(); o_setup = nondet_int(); o_fact = nondet_int(); o_rsize = nondet_int(); o_csize = nondet_int();
    o_bsize = nondet_int(); o_msize = nondet_int(); o_loadcalls = nondet_int();
 }
@@ -33,26 +41,42 @@ static void havoc_ghosts(void)
 #define BOOL01(x) ((x) == 0 || (x) == 1)
 #define STATUS_OK(s) (NO_PROBLEM < (s) && (s) <= INFEASIBLE)
 #define DIM(rep, nr, nc) ((rep) > 0 ? (nr) : (nc))
-/* basis id k of the int-pair array */
-#define BID_INFO(bid, k) ((bid)[2 * (k)])
-#define BID_IDX(bid, k) ((bid)[2 * (k) + 1])
+/* permutation produced by DataSet::remove(int perm[]) for n old and newn remaining elements: removed elements are
+ * negative, a survivor's new number is the number of survivors in front of it (written out for n <= 8) */
+#define S1(p, j, k) (((j) < (k) && (p)[j] >= 0) ? 1 : 0)
+#define SV(p, k) (S1(p, 0, k) + S1(p, 1, k) + S1(p, 2, k) + S1(p, 3, k) + S1(p, 4, k) + S1(p, 5, k) + S1(p, 6, k) + S1(p, 7, k))
+#define PK(p, n, k) (!((k) < (n)) || (p)[k] < 0 || (p)[k] == SV(p, k))
+#define PERM_OK(p, n, newn) (PK(p, n, 0) && PK(p, n, 1) && PK(p, n, 2) && PK(p, n, 3) && PK(p, n, 4) && PK(p, n, 5) && PK(p, n, 6) && PK(p, n, 7) && SV(p, n) == (newn))
+/* every removed element k < n has a status for which pred holds */
+#define RD(p, a, n, k, want_dual) (!((k) < (n)) || (p)[k] >= 0 || (IS_DUAL((a)[k]) ? (want_dual) : !(want_dual)))
+#define ALL_REMOVED(p, a, n, wd) (RD(p, a, n, 0, wd) && RD(p, a, n, 1, wd) && RD(p, a, n, 2, wd) && RD(p, a, n, 3, wd) && RD(p, a, n, 4, wd) && RD(p, a, n, 5, wd) && RD(p, a, n, 6, wd) && RD(p, a, n, 7, wd))
+/* a nonbasic status that is admissible for the bounds l, u (property statement: not at an infinite bound, FIXED only
+ * on equal bounds; additionally P_FREE only for a free variable) */
+#define PRIM_ADM(s, l, u) (IS_PRIMAL(s) && PRIMAL_OK(s, l, u) && ((s) != P_FREE || (INF_LO(l) && INF_UP(u))))
+/* basis status after rows / columns were added: primal feasibility resp. dual feasibility may be lost, nothing else */
+#define ROWS_ADDED(s) (((s) == PRIMAL || (s) == UNBOUNDED) ? REGULAR : ((s) == OPTIMAL || (s) == INFEASIBLE) ? DUAL : (s))
+#define COLS_ADDED(s) (((s) == DUAL || (s) == INFEASIBLE) ? REGULAR : ((s) == OPTIMAL || (s) == UNBOUNDED) ? PRIMAL : (s))
+#define OUT_ASSIGNS gp_rs, gp_cs, gp_bid, gp_mat, gp_status, gp_setup, gp_fact, gp_loadcalls, o_status, o_setup, o_fact, o_rsize, o_csize, o_bsize, o_msize, o_loadcalls
+/* basis ids are int codes: < 0 row id, > 0 column id (see basis_change_stubs.h) */
 
 #ifdef INST_removedRow
 /* removedRow(i): the LP has removed row i (the old last row nr now sits at position i).  LP now: nr rows, nc columns. */
 void w_removedRow(int i, int rep, int nr, int nc, int* rowstat, int* colstat, int* bid, int bsize, int bstatus, int setup, int fact, int gone)
-__CPROVER_requires(REP_OK(rep) && 0 <= nr && nr + 1 <= CAP && 0 <= nc && nc <= CAP && 0 <= i && i <= nr)
-__CPROVER_requires(FRESH_INTS(rowstat, nr + 1) && FRESH_INTS(colstat, nc) && bsize == DIM(rep, nr + 1, nc) && FRESH_INTS(bid, 2 * bsize))
-__CPROVER_requires(STATUS_OK(bstatus) && BOOL01(setup) && BOOL01(fact) && g_gone == gone && gone >= 0)
+__CPROVER_requires(REP_OK(rep) && 0 <= nr && nr < CAP && 0 <= nc && nc <= CAP && 0 <= i && i <= nr)
+__CPROVER_requires(FRESH_INTS(rowstat, nr + 1) && FRESH_INTS(colstat, nc) && bsize == DIM(rep, nr + 1, nc) && FRESH_INTS(bid, bsize))
+__CPROVER_requires(STATUS_OK(bstatus) && BOOL01(setup) && BOOL01(fact) && g_gone == gone && gone < 0)
 /* I(old): the descriptor has the old dimensions (given by the allocation sizes) and exactly nr+1 basic entries */
 __CPROVER_requires(VALID_DESC(rowstat[i]) && v_i == rowstat[i] && v_last == rowstat[nr])
 __CPROVER_requires(CNT(rowstat, nr + 1) + CNT(colstat, nc) == nr + 1)
 __CPROVER_requires(GHOST_IN(g_r, nr) && v_r == rowstat[g_r] && g_exp_r == (g_r == i ? v_last : v_r))
 __CPROVER_requires(GHOST_IN(g_c, nc) && (nc > 0 ==> (v_c == colstat[g_c] && g_exp_c == v_c)))
-/* the removed row's id sits in exactly one basis slot g_js iff the row is basic and the id array is in use */
-__CPROVER_requires((rep > 0 && setup && IS_DUAL(v_i)) ? (0 <= g_js && g_js < bsize && BID_INFO(bid, g_js) < 0 && BID_IDX(bid, g_js) == gone) : g_js == -1)
-__CPROVER_requires(g_dim == DIM(rep, nr, nc) && GHOST_IN(g_b, g_dim) && (g_dim > 0 ==> (v_b_info == BID_INFO(bid, g_b) && v_b_idx == BID_IDX(bid, g_b))))
-__CPROVER_requires(bsize > 0 ==> (v_last_info == BID_INFO(bid, bsize - 1) && v_last_idx == BID_IDX(bid, bsize - 1)))
-__CPROVER_assigns(gp_rs, gp_cs, gp_bid, gp_mat, o_status, o_setup, o_fact, o_rsize, o_csize, o_bsize, o_msize, o_loadcalls)
+/* the removed row's id sits in at most one basis slot: g_js, or nowhere (g_js == -1) */
+__CPROVER_requires(g_js == -1 || (0 <= g_js && g_js < bsize && bid[g_js] == gone))
+__CPROVER_requires(g_dim == DIM(rep, nr, nc) && GHOST_IN(g_b, g_dim) && (g_dim > 0 ==> v_b == bid[g_b]))
+__CPROVER_requires(bsize > 0 ==> v_blast == bid[bsize - 1])
+/* basis ids are pairwise distinct (part of I), instantiated at (g_js, g_b) */
+__CPROVER_requires((g_dim > 0 && g_b != g_js) ==> bid[g_b] != gone)
+__CPROVER_assigns(OUT_ASSIGNS)
 __CPROVER_assigns(__CPROVER_object_whole(rowstat), __CPROVER_object_whole(colstat), __CPROVER_object_whole(bid))
 /* dimensions follow the LP */
 __CPROVER_ensures(o_rsize == nr && o_csize == nc && o_bsize == DIM(rep, nr, nc) && o_msize == o_bsize)
@@ -70,15 +94,228 @@ __CPROVER_ensures((rep < 0 && o_status > NO_PROBLEM) ==> (o_setup == setup && o_
 __CPROVER_ensures(o_loadcalls == 0)
 /* basis ids: COLUMN, kept, ids in use: the last id moved into the slot of the removed row's id, which is gone */
 __CPROVER_ensures((g_dim > 0 && rep > 0 && setup && o_status > NO_PROBLEM) ==>
-   (BID_INFO(bid, g_b) == (g_b == g_js ? v_last_info : v_b_info) && BID_IDX(bid, g_b) == (g_b == g_js ? v_last_idx : v_b_idx)
-    && !(BID_INFO(bid, g_b) < 0 && BID_IDX(bid, g_b) == gone)))
-__CPROVER_ensures((g_dim > 0 && !(rep > 0 && setup && o_status > NO_PROBLEM)) ==> (BID_INFO(bid, g_b) == v_b_info && BID_IDX(bid, g_b) == v_b_idx))
+   (bid[g_b] == (g_b == g_js ? v_blast : v_b) && bid[g_b] != gone))
+__CPROVER_ensures((g_dim > 0 && !(rep > 0 && setup && o_status > NO_PROBLEM)) ==> bid[g_b] == v_b)
 ;
 void h_removedRow(void)
 {
    int* rowstat; int* colstat; int* bid; int i, rep, nr, nc, bsize, bstatus, setup, fact, gone;
    havoc_ghosts();
    w_removedRow(i, rep, nr, nc, rowstat, colstat, bid, bsize, bstatus, setup, fact, gone);
+   CANARY();
+}
+#endif
+
+#ifdef INST_removedCol
+/* removedCol(i): the LP has removed column i (the old last column nc now sits at position i).  LP now: nr rows, nc columns.
+ * Removing a BASIC column leaves nr rows but one basic variable less: the basis must be given up.  Removing a nonbasic
+ * column keeps the count. */
+void w_removedCol(int i, int rep, int nr, int nc, int* rowstat, int* colstat, int* bid, int bsize, int bstatus, int setup, int fact, int gone)
+__CPROVER_requires(REP_OK(rep) && 0 <= nr && nr <= CAP && 0 <= nc && nc < CAP && 0 <= i && i <= nc)
+__CPROVER_requires(FRESH_INTS(rowstat, nr) && FRESH_INTS(colstat, nc + 1) && bsize == DIM(rep, nr, nc + 1) && FRESH_INTS(bid, bsize))
+__CPROVER_requires(STATUS_OK(bstatus) && BOOL01(setup) && BOOL01(fact) && g_gone == gone && gone > 0)
+__CPROVER_requires(VALID_DESC(colstat[i]) && v_i == colstat[i] && v_last == colstat[nc])
+__CPROVER_requires(CNT(rowstat, nr) + CNT(colstat, nc + 1) == nr)
+__CPROVER_requires(GHOST_IN(g_c, nc) && v_c == colstat[g_c])
+__CPROVER_requires(GHOST_IN(g_r, nr) && (nr > 0 ==> v_r == rowstat[g_r]))
+__CPROVER_requires(g_js == -1 || (0 <= g_js && g_js < bsize && bid[g_js] == gone))
+__CPROVER_requires(g_dim == DIM(rep, nr, nc) && GHOST_IN(g_b, g_dim) && (g_dim > 0 ==> v_b == bid[g_b]))
+__CPROVER_requires(bsize > 0 ==> v_blast == bid[bsize - 1])
+__CPROVER_requires((g_dim > 0 && g_b != g_js) ==> bid[g_b] != gone)
+__CPROVER_assigns(OUT_ASSIGNS)
+__CPROVER_assigns(__CPROVER_object_whole(rowstat), __CPROVER_object_whole(colstat), __CPROVER_object_whole(bid))
+__CPROVER_ensures(o_rsize == nr && o_csize == nc && o_bsize == DIM(rep, nr, nc) && o_msize == o_bsize)
+__CPROVER_ensures(nc > 0 ==> colstat[g_c] == (g_c == i ? v_last : v_c))
+__CPROVER_ensures(nr > 0 ==> rowstat[g_r] == v_r)
+/* the basis is kept iff the removed column was nonbasic (in both representations) */
+__CPROVER_ensures(o_status == (IS_DUAL(v_i) ? NO_PROBLEM : bstatus))
+__CPROVER_ensures(o_status > NO_PROBLEM ==> CNT(rowstat, nr) + CNT(colstat, nc) == nr)
+__CPROVER_ensures(o_status == NO_PROBLEM ==> (!o_setup && !o_fact))
+__CPROVER_ensures(rep < 0 ==> (!o_setup && !o_fact))
+__CPROVER_ensures((rep > 0 && o_status > NO_PROBLEM) ==> (o_setup == setup && o_fact == fact))
+__CPROVER_ensures(o_loadcalls == 0)
+/* basis ids: ROW representation, kept: the last id moved into the slot of the removed column's id, which is gone */
+__CPROVER_ensures((g_dim > 0 && rep < 0 && o_status > NO_PROBLEM) ==> (bid[g_b] == (g_b == g_js ? v_blast : v_b) && bid[g_b] != gone))
+__CPROVER_ensures((g_dim > 0 && !(rep < 0 && o_status > NO_PROBLEM)) ==> bid[g_b] == v_b)
+;
+void h_removedCol(void)
+{
+   int* rowstat; int* colstat; int* bid; int i, rep, nr, nc, bsize, bstatus, setup, fact, gone;
+   havoc_ghosts();
+   w_removedCol(i, rep, nr, nc, rowstat, colstat, bid, bsize, bstatus, setup, fact, gone);
+   CANARY();
+}
+#endif
+
+#if defined(INST_removedRows) || defined(INST_removedCols)
+/* removedRows(perm) / removedCols(perm): the LP has removed the rows (columns) k with perm[k] < 0 and renumbered the
+ * others to perm[k].  LP now: nr rows, nc columns; the descriptor still has rsize x csize entries.
+ * X = the array the removal concerns.  Ghost index g_x ranges over the OLD numbers. */
+#ifdef INST_removedRows
+#define XS rowstat
+#define XN rsize
+#define XNEW nr
+#define OTHER_SAME (csize == nc)
+#define GIVE_UP_IF_REMOVED_IS_DUAL 0      /* a removed row must have been basic, else the basis is given up */
+#define KEEP_FLAGS_REP (-1)               /* representation whose basis matrix does not change dimension */
+#else
+#define XS colstat
+#define XN csize
+#define XNEW nc
+#define OTHER_SAME (rsize == nr)
+#define GIVE_UP_IF_REMOVED_IS_DUAL 1      /* a removed column must have been nonbasic, else the basis is given up */
+#define KEEP_FLAGS_REP 1
+#endif
+void w_removedMany(int* perm, int rep, int nr, int nc, int* rowstat, int rsize, int* colstat, int csize, int bsize, int bstatus, int setup, int fact)
+__CPROVER_requires(REP_OK(rep) && 0 <= nr && nr <= rsize && rsize <= CAP && 0 <= nc && nc <= csize && csize <= CAP && OTHER_SAME)
+__CPROVER_requires(FRESH_INTS(perm, XN) && FRESH_INTS(rowstat, rsize) && FRESH_INTS(colstat, csize) && bsize == DIM(rep, rsize, csize))
+__CPROVER_requires(STATUS_OK(bstatus) && BOOL01(setup) && BOOL01(fact) && g_bstatus == bstatus && g_setup == setup && g_fact == fact)
+__CPROVER_requires(g_n == XN && g_newn == XNEW && GHOST_IN(g_x, XN) && g_giveup == GIVE_UP_IF_REMOVED_IS_DUAL)
+__CPROVER_requires(XN > 0 ==> (v_x == XS[g_x] && g_p == perm[g_x] && VALID_DESC(v_x) && g_xdual == (IS_DUAL(v_x) ? 1 : 0) && g_p < XNEW && g_p <= g_x))
+__CPROVER_requires(GHOST_IN(g_r, nr) && GHOST_IN(g_c, nc))
+#ifdef INST_removedRows
+__CPROVER_requires(nc > 0 ==> v_c == colstat[g_c])
+#else
+__CPROVER_requires(nr > 0 ==> v_r == rowstat[g_r])
+#endif
+#ifdef COUNTV
+/* I(old) and the full characterisation of perm (the accessor invariant of the inductive variant is a consequence) */
+__CPROVER_requires(PERM_OK(perm, XN, XNEW) && CNT(rowstat, rsize) + CNT(colstat, csize) == rsize)
+#endif
+__CPROVER_assigns(OUT_ASSIGNS)
+__CPROVER_assigns(__CPROVER_object_whole(rowstat), __CPROVER_object_whole(colstat))
+__CPROVER_ensures(o_rsize == nr && o_csize == nc && o_bsize == DIM(rep, nr, nc) && o_msize == o_bsize)
+/* a survivor's status moved with it; the other array is untouched */
+__CPROVER_ensures((XN > 0 && g_p >= 0) ==> XS[g_p] == v_x)
+#ifdef INST_removedRows
+__CPROVER_ensures(nc > 0 ==> colstat[g_c] == v_c)
+#else
+__CPROVER_ensures(nr > 0 ==> rowstat[g_r] == v_r)
+#endif
+/* the basis is either kept as it was or given up; it is given up if some removed row was nonbasic / some removed column basic */
+__CPROVER_ensures(o_status == bstatus || o_status == NO_PROBLEM)
+__CPROVER_ensures((XN > 0 && g_p < 0 && (IS_DUAL(v_x) ? 1 : 0) == GIVE_UP_IF_REMOVED_IS_DUAL) ==> o_status == NO_PROBLEM)
+__CPROVER_ensures(o_status == NO_PROBLEM ==> (!o_setup && !o_fact))
+__CPROVER_ensures(rep != KEEP_FLAGS_REP ==> (!o_setup && !o_fact))
+__CPROVER_ensures((rep == KEEP_FLAGS_REP && o_status > NO_PROBLEM) ==> (o_setup == setup && o_fact == fact))
+__CPROVER_ensures(o_loadcalls == 0)
+#ifdef COUNTV
+/* C04: a kept basis has exactly one basic variable per remaining row; and it is kept exactly when that is possible */
+__CPROVER_ensures(o_status > NO_PROBLEM ==> CNT(rowstat, nr) + CNT(colstat, nc) == nr)
+__CPROVER_ensures(o_status == (ALL_REMOVED(perm, XS, XN, !GIVE_UP_IF_REMOVED_IS_DUAL) ? bstatus : NO_PROBLEM))
+#endif
+;
+void h_removedMany(void)
+{
+   int* perm; int* rowstat; int* colstat; int rep, nr, nc, rsize, csize, bsize, bstatus, setup, fact;
+   havoc_ghosts();
+   w_removedMany(perm, rep, nr, nc, rowstat, rsize, colstat, csize, bsize, bstatus, setup, fact);
+   CANARY();
+}
+#endif
+
+#if defined(INST_addedRows) || defined(INST_addedCols)
+/* addedRows(n) / addedCols(n): the LP has appended n rows (columns).  LP now: nr rows, nc columns; the descriptor
+ * still has rsize x csize entries.  New rows enter the basis as slack (basic, dual status of their sides): basicCount
+ * and nRows both grow by n.  New columns enter nonbasic at an admissible bound: basicCount and nRows are unchanged. */
+#ifdef INST_addedRows
+#define SIZES_OK (0 <= n && n <= nr && rsize == nr - n && csize == nc)
+#define NEWSTATUS(s) ROWS_ADDED(s)
+#define GROW_REP 1
+#else
+#define SIZES_OK (0 <= n && n <= nc && csize == nc - n && rsize == nr)
+#define NEWSTATUS(s) COLS_ADDED(s)
+#define GROW_REP (-1)
+#endif
+void w_added(int n, int rep, int nr, int nc, double* lhs, double* rhs, double* lower, double* upper, double* obj, int* rowkey, int* colkey,
+             int* rowstat, int rsize, int* colstat, int csize, int* bid, int bsize, int bmax, int bstatus, int setup, int fact)
+__CPROVER_requires(REP_OK(rep) && 0 <= nr && nr <= CAP && 0 <= nc && nc <= CAP && SIZES_OK && bsize == DIM(rep, rsize, csize) && bmax == DIM(rep, nr, nc))
+__CPROVER_requires(FRESH_INTS(rowstat, nr) && FRESH_INTS(colstat, nc) && FRESH_INTS(bid, bmax) && FRESH_INTS(rowkey, nr) && FRESH_INTS(colkey, nc))
+__CPROVER_requires(FRESH_DBLS(lhs, nr) && FRESH_DBLS(rhs, nr) && FRESH_DBLS(lower, nc) && FRESH_DBLS(upper, nc) && FRESH_DBLS(obj, nc))
+__CPROVER_requires(STATUS_OK(bstatus) && BOOL01(setup) && BOOL01(fact) && g_n == n && g_nr == nr && g_nc == nc && g_rep == rep)
+__CPROVER_requires(GHOST_IN(g_r, nr) && GHOST_IN(g_c, nc) && GHOST_IN(g_b, bmax))
+__CPROVER_requires(nr > 0 ==> (v_r == rowstat[g_r] && v_exp_r == DUALSTAT(lhs[g_r], rhs[g_r])))
+__CPROVER_requires(nc > 0 ==> (v_c == colstat[g_c] && NOT_NAN(lower[g_c]) && NOT_NAN(upper[g_c])))
+__CPROVER_requires(nc > 0 ==> (g_okL == PRIM_ADM(P_ON_LOWER, lower[g_c], upper[g_c]) && g_okU == PRIM_ADM(P_ON_UPPER, lower[g_c], upper[g_c])
+                               && g_okX == PRIM_ADM(P_FIXED, lower[g_c], upper[g_c]) && g_okF == PRIM_ADM(P_FREE, lower[g_c], upper[g_c])))
+__CPROVER_requires(bmax > 0 ==> (v_b == bid[g_b] && g_key == (rep > 0 ? rowkey[g_b] : colkey[g_b])))
+#ifdef INST_addedRows
+__CPROVER_requires(g_old == nr - n)
+#else
+__CPROVER_requires(g_old == nc - n)
+#endif
+#ifdef COUNTV
+__CPROVER_requires(CNT(rowstat, rsize) + CNT(colstat, csize) == rsize)
+#endif
+__CPROVER_assigns(OUT_ASSIGNS)
+__CPROVER_assigns(__CPROVER_object_whole(rowstat), __CPROVER_object_whole(colstat), __CPROVER_object_whole(bid))
+/* n == 0: nothing happens */
+__CPROVER_ensures(n == 0 ==> (o_rsize == rsize && o_csize == csize && o_bsize == bsize && o_msize == bsize && o_status == bstatus && o_setup == setup && o_fact == fact && o_loadcalls == 0))
+/* n > 0: dimensions follow the LP */
+__CPROVER_ensures(n > 0 ==> (o_rsize == nr && o_csize == nc && o_bsize == DIM(rep, nr, nc) && o_msize == o_bsize))
+#ifdef INST_addedRows
+__CPROVER_ensures(nr > 0 ==> rowstat[g_r] == ((n > 0 && g_r >= nr - n) ? DUALSTAT(lhs[g_r], rhs[g_r]) : v_r))
+__CPROVER_ensures((nr > 0 && n > 0 && g_r >= nr - n) ==> IS_DUAL(rowstat[g_r]))
+__CPROVER_ensures(nc > 0 ==> colstat[g_c] == v_c)
+#else
+__CPROVER_ensures((nc > 0 && !(n > 0 && g_c >= nc - n)) ==> colstat[g_c] == v_c)
+__CPROVER_ensures((nc > 0 && n > 0 && g_c >= nc - n) ==> PRIM_ADM(colstat[g_c], lower[g_c], upper[g_c]))
+__CPROVER_ensures(nr > 0 ==> rowstat[g_r] == v_r)
+#endif
+/* the basis is never given up; its status only loses the feasibility the new rows / columns can break */
+__CPROVER_ensures(o_status == (n > 0 ? NEWSTATUS(bstatus) : bstatus) && o_status > NO_PROBLEM)
+/* basis ids: where the basis matrix grows, the new slots name the new rows (columns) */
+__CPROVER_ensures(bmax > 0 ==> bid[g_b] == ((n > 0 && rep == GROW_REP && g_b >= g_old) ? g_key : v_b))
+/* flags: matrix grew => not set up, not factorized; otherwise the vectors are reloaded iff they were loaded */
+__CPROVER_ensures((n > 0 && rep == GROW_REP) ==> (!o_setup && !o_fact && o_loadcalls == 0))
+__CPROVER_ensures((n > 0 && rep != GROW_REP) ==> (setup ? (o_setup && !o_fact && o_loadcalls == 1) : (!o_setup && o_fact == fact && o_loadcalls == 0)))
+#ifdef COUNTV
+__CPROVER_ensures(CNT(rowstat, o_rsize) + CNT(colstat, o_csize) == o_rsize)
+#endif
+;
+void h_added(void)
+{
+   double* lhs; double* rhs; double* lower; double* upper; double* obj; int* rowkey; int* colkey; int* rowstat; int* colstat; int* bid;
+   int n, rep, nr, nc, rsize, csize, bsize, bmax, bstatus, setup, fact;
+   havoc_ghosts();
+   w_added(n, rep, nr, nc, lhs, rhs, lower, upper, obj, rowkey, colkey, rowstat, rsize, colstat, csize, bid, bsize, bmax, bstatus, setup, fact);
+   CANARY();
+}
+#endif
+
+#if defined(INST_changedRow) || defined(INST_changedCol) || defined(INST_changedElement)
+/* changedRow / changedCol / changedElement: the basis is reset to the slack basis: every row basic (dual status of its
+ * sides), every column nonbasic at an admissible bound, basis ids = the rows (COLUMN) resp. the columns (ROW), status
+ * REGULAR, no matrix, no factorization. */
+void w_changed(int rep, int nr, int nc, double* lhs, double* rhs, double* lower, double* upper, double* obj, int* rowkey, int* colkey,
+               int* rowstat, int* colstat, int* bid, int bsize, int bstatus, int setup, int fact)
+__CPROVER_requires(REP_OK(rep) && 0 <= nr && nr <= CAP && 0 <= nc && nc <= CAP && bsize == DIM(rep, nr, nc))
+__CPROVER_requires(FRESH_INTS(rowstat, nr) && FRESH_INTS(colstat, nc) && FRESH_INTS(bid, bsize) && FRESH_INTS(rowkey, nr) && FRESH_INTS(colkey, nc))
+__CPROVER_requires(FRESH_DBLS(lhs, nr) && FRESH_DBLS(rhs, nr) && FRESH_DBLS(lower, nc) && FRESH_DBLS(upper, nc) && FRESH_DBLS(obj, nc))
+__CPROVER_requires(STATUS_OK(bstatus) && BOOL01(setup) && BOOL01(fact) && g_nr == nr && g_nc == nc && g_rep == rep && g_dim == bsize)
+__CPROVER_requires(GHOST_IN(g_r, nr) && GHOST_IN(g_c, nc) && GHOST_IN(g_b, bsize))
+__CPROVER_requires(nr > 0 ==> v_exp_r == DUALSTAT(lhs[g_r], rhs[g_r]))
+__CPROVER_requires(nc > 0 ==> (NOT_NAN(lower[g_c]) && NOT_NAN(upper[g_c])))
+__CPROVER_requires(nc > 0 ==> (g_okL == PRIM_ADM(P_ON_LOWER, lower[g_c], upper[g_c]) && g_okU == PRIM_ADM(P_ON_UPPER, lower[g_c], upper[g_c])
+                               && g_okX == PRIM_ADM(P_FIXED, lower[g_c], upper[g_c]) && g_okF == PRIM_ADM(P_FREE, lower[g_c], upper[g_c])))
+__CPROVER_requires(bsize > 0 ==> g_key == (rep > 0 ? rowkey[g_b] : colkey[g_b]))
+__CPROVER_assigns(OUT_ASSIGNS)
+__CPROVER_assigns(__CPROVER_object_whole(rowstat), __CPROVER_object_whole(colstat), __CPROVER_object_whole(bid))
+__CPROVER_ensures(o_rsize == nr && o_csize == nc && o_bsize == bsize && o_msize == bsize)
+__CPROVER_ensures(nr > 0 ==> (rowstat[g_r] == DUALSTAT(lhs[g_r], rhs[g_r]) && IS_DUAL(rowstat[g_r])))
+__CPROVER_ensures(nc > 0 ==> PRIM_ADM(colstat[g_c], lower[g_c], upper[g_c]))
+__CPROVER_ensures(bsize > 0 ==> bid[g_b] == g_key)
+__CPROVER_ensures(o_status == REGULAR && !o_setup && !o_fact && o_loadcalls == 0)
+#ifdef COUNTV
+__CPROVER_ensures(CNT(rowstat, nr) + CNT(colstat, nc) == nr)
+#endif
+;
+void h_changed(void)
+{
+   double* lhs; double* rhs; double* lower; double* upper; double* obj; int* rowkey; int* colkey; int* rowstat; int* colstat; int* bid;
+   int rep, nr, nc, bsize, bstatus, setup, fact;
+   havoc_ghosts();
+   w_changed(rep, nr, nc, lhs, rhs, lower, upper, obj, rowkey, colkey, rowstat, colstat, bid, bsize, bstatus, setup, fact);
    CANARY();
 }
 #endif
